@@ -83,6 +83,19 @@ void bundle_t::solve(const scalar_t miu, const logger_t& logger)
 
         m_alphas.slice(0, m_size) = solution.m_x;
     }
+
+    // NB: keep the multipliers on the simplex even if the bundle problem was not solved (accurately):
+    //     the smeared error and sub-gradient certify optimality only for a convex combination of the cuts!
+    auto       alphas = m_alphas.slice(0, m_size);
+    alphas.array()    = alphas.array().max(0.0);
+    if (const auto sum = alphas.sum(); std::isfinite(sum) && sum > 0.0)
+    {
+        alphas.array() /= sum;
+    }
+    else
+    {
+        alphas.full(1.0 / static_cast<scalar_t>(m_size));
+    }
 }
 
 void bundle_t::delete_inactive(const scalar_t epsilon)
